@@ -605,6 +605,8 @@ package kcp
 //@   ensures enc.wf() && len(ps) <= enc.parityShards
 //@   ensures @C10 forall k int :: 0 <= k && k < len(ps) ==> enc.payloadOffset + 2 <= len(ps[k]) && len(ps[k]) <= 1500 && cap(ps[k]) == 1500
 //@   ensures @C10 [parity-not-longer-than-longest-data] forall k int :: 0 <= k && k < len(ps) ==> len(ps[k]) <= max(old(enc.maxSize), len(b))
+//@   ensures [parity-rows-are-cache-rows] ps == nil || (ref(ps) == ref(enc.shardCache) && off(ps) == off(enc.shardCache) + enc.dataShards && len(ps) == enc.parityShards)
+//@   ensures [longest-row-tracking] enc.maxSize == 0 || enc.maxSize == max(old(enc.maxSize), len(b))
 //@   loop 1 invariant 0 <= i && enc.wfP() && enc.shardCount == enc.dataShards && 0 <= enc.maxSize && enc.maxSize <= 1500 && enc.payloadOffset + 2 <= enc.maxSize
 //@   loop 1 invariant enc.maxSize == max(old(enc.maxSize), len(b)) && enc.parityRows()
 //@   loop 1 invariant (forall k int :: 0 <= k && k < len(enc.shardCache) ==> cap(enc.shardCache[k]) == 1500)
@@ -625,7 +627,7 @@ package kcp
 //@ func BlockCrypt.Decrypt
 //@   requires !typeis(self, ptr_aeadCrypt) && len(dst) >= len(src)
 //@   modifies dst[..]
-//@ func BlockCrypt.Encrypt
+//@ func BlockCrypt.Encrypt counted
 //@   requires !typeis(self, ptr_aeadCrypt) && len(dst) >= len(src)
 //@   modifies dst[..]
 //@ func aeadCrypt.Open inline
@@ -696,7 +698,14 @@ package kcp
 //@      && l.sessions[k].block == l.block && addrstr(l.sessions[k].remote) == k && l.sessions[k].l == l
 //@ monitor Listener.sessionLock self.inv()
 //
+// The header the session reserves in front of every KCP packet: the cipher's part (nothing, the
+// AEAD nonce, or nonce+CRC) plus the FEC header and size field when FEC is on.
+//@ spec (s *UDPSession) ch() int = s.block == nil ? 0 : (typeis(s.block, ptr_aeadCrypt) ? aeadns(unboxptr(s.block, aeadCrypt).aead) : 20)
+//@ pred (s *UDPSession) hdr() = s.headerSize == s.ch() + (s.fecEncoder != nil ? 8 : 0)
+//@      && (s.fecEncoder != nil ==> s.fecEncoder.headerOffset == s.ch())
+//
 //@ func newUDPSession counted trusted
+//@   ensures @C10 [header-size-accounts-for-cipher-and-fec] result.hdr()
 //@   modifies all(DefaultSnmp)
 //@   ensures result != nil && fresh(result) && result.imm() && result.kcp.conv == conv && result.remote == remote
 //@   ensures result.block == block && result.l == l
@@ -919,3 +928,54 @@ package kcp
 //@ kind seq local:KCP.parse_una.una local:KCP.ack_push.sn local:segmentHeap.Has.sn
 //@ kind clock local:KCP.Input.ts local:KCP.Input.latest local:KCP.Input.current local:KCP.parse_fastack.ts local:KCP.ack_push.ts
 //@ kind clock local:KCP.flush.current local:KCP.Check.current local:KCP.Check.ts_flush local:KCP.Update.current
+
+// ===================================================================================
+// sess.go - the post-processing goroutine (C10 last hop, C09 nonce/checksum discipline, C06
+// sender side). The FEC encoder is used by this goroutine only (C14: confined), so its invariant
+// is a loop invariant here rather than part of the session monitor.
+// ===================================================================================
+//
+//@ func UDPSession.tx trusted
+//@   requires forall k int :: 0 <= k && k < len(txqueue) ==> len(txqueue[k].Buffers) >= 1
+//@   modifies all(DefaultSnmp)
+//@ func fillRand trusted counted
+//@   modifies p[..]
+//@ pred (s *UDPSession) ppinv() = s.imm() && s.hdr() && (s.fecEncoder != nil ==> s.fecEncoder.wf() && s.fecEncoder.maxSize + s.ov() <= 1500)
+// parity rows before (room for the AEAD tag) and after sealing
+//@ pred eccrow(r []byte, hs int, room int) = hs <= len(r) && len(r) + room <= 1500 && cap(r) == 1500
+//@ func UDPSession.postProcess
+//@   requires s.ppinv()
+//@   requires calls(fillRand) == calls(BlockCrypt.Encrypt) + calls(cipher.AEAD.Seal)
+//@   modifies everything
+//@   callsite BlockCrypt.Encrypt requires @C09 [fresh-nonce-before-every-encryption] calls(fillRand) == calls(BlockCrypt.Encrypt) + calls(cipher.AEAD.Seal) + 1
+//@   callsite cipher.AEAD.Seal requires @C09 [fresh-nonce-before-every-sealing] calls(fillRand) == calls(BlockCrypt.Encrypt) + calls(cipher.AEAD.Seal) + 1
+//@   callsite BlockCrypt.Encrypt requires @C09 @C06 [checksum-written-before-encryption-covers-the-rest] sameSlice(dst, src) && len(dst) >= 20 && le32(dst, 16) == crcof(dst[20:])
+//@   callsite UDPSession.tx requires @C10 [every-datagram-fits-a-pool-buffer] forall k int :: 0 <= k && k < len(txqueue) ==> len(txqueue[k].Buffers[0]) <= 1500
+//@   loop 1 invariant calls(fillRand) == calls(BlockCrypt.Encrypt) + calls(cipher.AEAD.Seal)
+//@   loop 2 invariant calls(fillRand) == calls(BlockCrypt.Encrypt) + calls(cipher.AEAD.Seal)
+//@   loop 3 invariant calls(fillRand) == calls(BlockCrypt.Encrypt) + calls(cipher.AEAD.Seal)
+//@   loop 4 invariant calls(fillRand) == calls(BlockCrypt.Encrypt) + calls(cipher.AEAD.Seal)
+//@   loop 5 invariant calls(fillRand) == calls(BlockCrypt.Encrypt) + calls(cipher.AEAD.Seal)
+//@   loop 6 invariant calls(fillRand) == calls(BlockCrypt.Encrypt) + calls(cipher.AEAD.Seal)
+//@   loop 1 invariant forall k int :: 0 <= k && k < len(txqueue) ==> len(txqueue[k].Buffers[0]) <= 1500
+//@   loop 2 invariant forall k int :: 0 <= k && k < len(txqueue) ==> len(txqueue[k].Buffers[0]) <= 1500
+//@   loop 3 invariant forall k int :: 0 <= k && k < len(txqueue) ==> len(txqueue[k].Buffers[0]) <= 1500
+//@   loop 4 invariant forall k int :: 0 <= k && k < len(txqueue) ==> len(txqueue[k].Buffers[0]) <= 1500
+//@   loop 5 invariant forall k int :: 0 <= k && k < len(txqueue) ==> len(txqueue[k].Buffers[0]) <= 1500
+//@   loop 1 invariant s.ppinv() && (txqueue == nil || fresh(txqueue)) && bytesToSend >= 0
+//@   loop 1 invariant forall k int :: 0 <= k && k < len(txqueue) ==> len(txqueue[k].Buffers) == 1 && fresh(txqueue[k].Buffers)
+//@   loop 2 invariant s.ppinv() && (txqueue == nil || fresh(txqueue)) && bytesToSend >= 0 && cap(buf) == 1500 && len(buf) <= 1500
+//@   loop 2 invariant forall k int :: 0 <= k && k < len(txqueue) ==> len(txqueue[k].Buffers) == 1 && fresh(txqueue[k].Buffers)
+//@   loop 2 invariant forall j int :: 0 <= j && j <= rangeindex ==> eccrow(ecc[j], s.headerSize, 0)
+//@   loop 2 invariant forall j int :: rangeindex < j && j < len(ecc) ==> eccrow(ecc[j], s.headerSize, s.ov())
+//@   loop 3 invariant s.ppinv() && (txqueue == nil || fresh(txqueue)) && bytesToSend >= 0 && cap(buf) == 1500 && len(buf) <= 1500
+//@   loop 3 invariant forall k int :: 0 <= k && k < len(txqueue) ==> len(txqueue[k].Buffers) == 1 && fresh(txqueue[k].Buffers)
+//@   loop 3 invariant forall j int :: 0 <= j && j < len(ecc) ==> eccrow(ecc[j], s.headerSize, 0)
+//@   loop 4 invariant s.ppinv() && (txqueue == nil || fresh(txqueue)) && bytesToSend >= 0 && cap(buf) == 1500 && len(buf) <= 1500
+//@   loop 4 invariant forall k int :: 0 <= k && k < len(txqueue) ==> len(txqueue[k].Buffers) == 1 && fresh(txqueue[k].Buffers)
+//@   loop 4 invariant forall j int :: 0 <= j && j < len(ecc) ==> eccrow(ecc[j], s.headerSize, 0)
+//@   loop 5 invariant s.ppinv() && (txqueue == nil || fresh(txqueue)) && bytesToSend >= 0
+//@   loop 5 invariant forall k int :: 0 <= k && k < len(txqueue) ==> len(txqueue[k].Buffers) == 1 && fresh(txqueue[k].Buffers)
+//@   loop 5 invariant forall j int :: 0 <= j && j < len(ecc) ==> eccrow(ecc[j], s.headerSize, 0)
+//@   loop 6 invariant s.ppinv() && (txqueue == nil || fresh(txqueue)) && bytesToSend >= 0
+//@   loop 6 invariant forall k int :: rangeindex < k && k < len(txqueue) ==> len(txqueue[k].Buffers) == 1 && fresh(txqueue[k].Buffers)
